@@ -313,11 +313,11 @@ Proof.
   unfold cast_ok in Hx. rewrite Hx. cbn. exact (IH Hr).
 Qed.
 
-Lemma compress_vector_close delta d f :
-  (delta && looks_like_id_list d f && negb (forallb cast_ok d)) = false ->
-  exists w, cunmap (compress_vector delta d f) = TVec w /\ vec_close d w = true.
+Lemma compress_vector_close g delta d f :
+  (delta && looks_like_id_list_with g d f && negb (forallb cast_ok d)) = false ->
+  exists w, cunmap (compress_vector_with g delta d f) = TVec w /\ vec_close d w = true.
 Proof.
-  intros Hk. unfold compress_vector. destruct (delta && looks_like_id_list d f) eqn:Hid.
+  intros Hk. unfold compress_vector_with. destruct (delta && looks_like_id_list_with g d f) eqn:Hid.
   - cbn [andb] in Hk. apply negb_false_iff in Hk. cbn [cunmap].
     rewrite delta_roundtrip.
     + eexists. split; [reflexivity|]. apply vec_cast_close. exact Hk.
@@ -326,22 +326,210 @@ Proof.
   - cbn [cunmap]. eexists. split; [reflexivity|]. apply vec_close_refl.
 Qed.
 
-Lemma quant_exact delta f v :
-  quant_known delta f v = false -> q_equal v (cunmap (cmap delta f v)) = true.
+Lemma quant_exact_with g delta f v :
+  quant_known_with g delta f v = false -> q_equal v (cunmap (cmap_with g delta f v)) = true.
 Proof.
-  unfold quant_known. intros Hk. apply orb_false_iff in Hk. destruct Hk as [Hb Hl].
+  unfold quant_known_with. intros Hk. apply orb_false_iff in Hk. destruct Hk as [Hb Hl].
   destruct v as [s|d|dim pos vals|p|ps].
   - destruct s; cbn in Hb; try discriminate; cbn; try reflexivity.
     + destruct b; reflexivity.
     + apply Z.eqb_refl.
     + apply N.eqb_refl.
     + apply str_eqb_refl.
-  - unfold id_path_lossy in Hl. cbn [dense_of] in Hl. cbn [cmap].
-    destruct (compress_vector_close delta d f Hl) as (w & -> & Hw). exact Hw.
-  - unfold id_path_lossy in Hl. cbn [dense_of] in Hl. cbn [cmap].
-    destruct (compress_vector_close delta (sparse_dense dim pos vals) f Hl) as (w & -> & Hw). exact Hw.
+  - unfold id_path_lossy_with in Hl. cbn [dense_of] in Hl. cbn [cmap_with].
+    destruct (compress_vector_close g delta d f Hl) as (w & -> & Hw). exact Hw.
+  - unfold id_path_lossy_with in Hl. cbn [dense_of] in Hl. cbn [cmap_with].
+    destruct (compress_vector_close g delta (sparse_dense dim pos vals) f Hl) as (w & -> & Hw). exact Hw.
   - cbn. apply str_eqb_refl.
   - cbn. apply list_eqb_refl. exact str_eqb_refl.
+Qed.
+
+Lemma quant_exact delta f v :
+  quant_known delta f v = false -> q_equal v (cunmap (cmap delta f v)) = true.
+Proof. apply quant_exact_with. Qed.
+
+(* ------------------------------------------------------------------ the guarded id path is exact *)
+Lemma sign_false_lt b : b < 2 ^ 32 -> f32_sign b = false -> b < 2 ^ 31.
+Proof.
+  unfold f32_sign. intros Hb Hs. apply N.testbit_false in Hs.
+  change (2 ^ 31) with 2147483648 in *. change (2 ^ 32) with 4294967296 in Hb. lia.
+Qed.
+
+Lemma fields_of b : b < 2 ^ 31 ->
+  f32_exp b = b / 8388608 /\ f32_man b = b mod 8388608 /\ f32_abs b = b.
+Proof.
+  intros Hb. unfold f32_exp, f32_man, f32_abs.
+  change 255 with (N.ones 8). change 8388607 with (N.ones 23). change 2147483647 with (N.ones 31).
+  rewrite !N.land_ones, N.shiftr_div_pow2.
+  change (2 ^ 23) with 8388608. change (2 ^ 8) with 256. change (2 ^ 31) with 2147483648 in *.
+  repeat split; lia.
+Qed.
+
+Lemma pow_split t : t <= 23 -> 2 ^ t * 2 ^ (23 - t) = 8388608.
+Proof. intros Ht. rewrite <- N.pow_add_r. replace (t + (23 - t)) with 23 by lia. reflexivity. Qed.
+
+Lemma pow_pos t : 0 < 2 ^ t.
+Proof. apply N.neq_0_lt_0. apply N.pow_nonzero. discriminate. Qed.
+
+(* small exponents: 127 <= e < 150, t = 150 - e in 1..23, mantissa divisible by 2^t *)
+Lemma cast_small e m :
+  127 <= e -> e < 150 -> m < 8388608 -> m mod 2 ^ (150 - e) = 0 ->
+  u64_to_f32 (N.shiftr (m + 8388608) (150 - e)) = e * 8388608 + m.
+Proof.
+  intros H1 H2 Hm Hd. set (t := 150 - e) in *. assert (Ht : 1 <= t <= 23) by lia.
+  pose proof (pow_split t (proj2 Ht)) as HPQ. pose proof (pow_pos t) as HP. pose proof (pow_pos (23 - t)) as HQ.
+  set (P := 2 ^ t) in *. set (Q := 2 ^ (23 - t)) in *.
+  assert (Hm' : m = P * (m / P)) by (apply N.div_exact; [lia|exact Hd]).
+  set (m' := m / P) in *.
+  assert (Hm'Q : m' < Q) by nia.
+  rewrite N.shiftr_div_pow2. fold P.
+  assert (Hx : (m + 8388608) / P = m' + Q).
+  { rewrite Hm', <- HPQ. rewrite <- N.mul_add_distr_l. rewrite N.mul_comm. apply N.div_mul. lia. }
+  rewrite Hx. unfold u64_to_f32.
+  assert (Hnz : (m' + Q =? 0) = false) by (apply N.eqb_neq; lia). rewrite Hnz.
+  assert (Hlog : N.log2 (m' + Q) = 23 - t).
+  { apply N.log2_unique; [lia|]. fold Q. split; [lia|].
+    replace (N.succ (23 - t)) with (1 + (23 - t)) by lia. rewrite N.pow_add_r. fold Q. change (2 ^ 1) with 2. lia. }
+  rewrite Hlog. assert (Hle : (23 - t <=? 23) = true) by (apply N.leb_le; lia). rewrite Hle.
+  rewrite N.shiftl_mul_pow2. replace (23 - (23 - t)) with t by lia. fold P.
+  assert (He : e = 150 - t) by lia. rewrite He. nia.
+Qed.
+
+Lemma cast_big e m :
+  150 <= e -> e < 191 -> m < 8388608 ->
+  u64_to_f32 (N.min u64_max (N.shiftl (m + 8388608) (e - 150))) = e * 8388608 + m.
+Proof.
+  intros H1 H2 Hm. set (s := e - 150) in *. assert (Hs : s <= 40) by lia.
+  rewrite N.shiftl_mul_pow2. pose proof (pow_pos s) as HP.
+  assert (HP40 : 2 ^ s <= 2 ^ 40) by (apply N.pow_le_mono_r; [discriminate|exact Hs]).
+  change (2 ^ 40) with 1099511627776 in HP40.
+  set (P := 2 ^ s) in *. set (X := (m + 8388608) * P).
+  assert (HX : X <= u64_max) by (unfold u64_max, X; nia).
+  rewrite N.min_r by exact HX. unfold u64_to_f32.
+  assert (Hnz : (X =? 0) = false) by (apply N.eqb_neq; unfold X; nia). rewrite Hnz.
+  assert (Hlog : N.log2 X = 23 + s).
+  { apply N.log2_unique; [lia|]. rewrite N.pow_add_r. fold P. change (2 ^ 23) with 8388608.
+    replace (N.succ (23 + s)) with (24 + s) by lia. rewrite N.pow_add_r. fold P. change (2 ^ 24) with 16777216.
+    unfold X. split; nia. }
+  rewrite Hlog. destruct (N.eq_dec s 0) as [Hs0|Hs0].
+  - assert (HP1 : P = 1) by (unfold P; rewrite Hs0; reflexivity).
+    rewrite Hs0. change (23 + 0 <=? 23) with true. cbv iota. change (23 - (23 + 0)) with 0.
+    rewrite N.shiftl_0_r. unfold X. rewrite HP1. assert (e = 150) by lia. subst e. lia.
+  - assert (Hgt : (23 + s <=? 23) = false) by (apply N.leb_gt; lia). rewrite Hgt.
+    replace (23 + s - 23) with s by lia. cbv zeta.
+    rewrite N.shiftr_div_pow2, N.land_ones. fold P.
+    assert (Hq : X / P = m + 8388608) by (unfold X; apply N.div_mul; lia).
+    assert (Hr : X mod P = 0) by (unfold X; apply N.mod_mul; lia).
+    rewrite Hq, Hr. rewrite N.shiftl_mul_pow2.
+    assert (Hh : 0 < 1 * 2 ^ (s - 1)) by (pose proof (pow_pos (s - 1)); lia).
+    assert (Hup : ((1 * 2 ^ (s - 1) <? 0) || (0 =? 1 * 2 ^ (s - 1)) && N.odd (m + 8388608)) = false).
+    { apply orb_false_iff. split; [apply N.ltb_ge; lia|].
+      apply andb_false_iff. left. apply N.eqb_neq. lia. }
+    rewrite Hup. assert (He : e = 150 + s) by lia. rewrite He. lia.
+Qed.
+
+Lemma id_exact_cast b : b < 2 ^ 32 -> id_exact b = true -> u64_to_f32 (f32_to_u64 b) = b.
+Proof.
+  intros Hb Hx. unfold id_exact in Hx. apply andb_true_iff in Hx. destruct Hx as [Hx He].
+  apply andb_true_iff in Hx. destruct Hx as [Hs Hf]. apply negb_true_iff in Hs, Hf. apply N.ltb_lt in He.
+  pose proof (sign_false_lt b Hb Hs) as Hb31. destruct (fields_of b Hb31) as (Ee & Em & Ea).
+  assert (Hbm : b = (b / 8388608) * 8388608 + b mod 8388608) by lia.
+  assert (Hm : b mod 8388608 < 8388608) by lia.
+  unfold f32_has_fract in Hf. unfold f32_is_zero in Hf. rewrite Ee, Em, Ea in Hf. rewrite Ee in He.
+  unfold f32_to_u64, f32_is_nan. rewrite Ea, Hs, Ee, Em.
+  set (e := b / 8388608) in *. set (m := b mod 8388608) in *.
+  assert (Hnan : (f32_inf <? b) = false) by (apply N.ltb_ge; unfold f32_inf; lia). rewrite Hnan.
+  destruct (e =? 255) eqn:E255; [discriminate|].
+  destruct (e <? 127) eqn:E127.
+  - apply negb_false_iff in Hf. apply N.eqb_eq in Hf. subst b. reflexivity.
+  - apply N.ltb_ge in E127. destruct (150 <=? e) eqn:E150.
+    + apply N.leb_le in E150. assert (H191 : (191 <=? e) = false) by (apply N.leb_gt; exact He). rewrite H191.
+      rewrite (cast_big e m E150 He Hm). symmetry. exact Hbm.
+    + apply N.leb_gt in E150. apply negb_false_iff in Hf. apply N.eqb_eq in Hf. rewrite N.land_ones in Hf.
+      rewrite (cast_small e m E127 E150 Hm Hf). symmetry. exact Hbm.
+Qed.
+
+Definition f32_wf (b : N) : Prop := b < 2 ^ 32.
+Definition tval_wf (v : tval) : Prop :=
+  match v with
+  | TVec d => Forall f32_wf d
+  | TSparse _ _ vs => Forall f32_wf vs
+  | _ => True
+  end.
+
+Lemma chain_exact prev v : id_chain true prev v = true -> forallb id_exact v = true.
+Proof.
+  revert prev. induction v as [|x r IH]; intros prev; cbn [id_chain forallb]; [reflexivity|].
+  intros H. apply andb_true_iff in H. destruct H as [H Hr]. apply andb_true_iff in H. destruct H as [_ Hx].
+  cbn [id_elem_ok] in Hx. rewrite Hx. cbn. apply (IH x Hr).
+Qed.
+
+Lemma looks_exact v f : looks_like_id_list_with true v f = true -> forallb id_exact v = true.
+Proof.
+  unfold looks_like_id_list_with. destruct (str_eqb f gen_id_name || ends_with gen_id_suffix f); [auto|].
+  destruct v as [|x [|y r]]; try discriminate. intros H. apply andb_true_iff in H. destruct H as [Hx Hc].
+  cbn [id_elem_ok] in Hx. cbn [tl] in Hc. cbn [forallb]. rewrite Hx. cbn [andb].
+  apply (chain_exact x (y :: r) Hc).
+Qed.
+
+Lemma exact_cast_ok b : f32_wf b -> id_exact b = true -> cast_ok b = true.
+Proof.
+  intros Hw Hx. unfold cast_ok, elem_close. rewrite (id_exact_cast b Hw Hx), N.eqb_refl. reflexivity.
+Qed.
+
+Lemma forallb_cast d : Forall f32_wf d -> forallb id_exact d = true -> forallb cast_ok d = true.
+Proof.
+  induction d as [|x r IH]; cbn [forallb]; intros Hw Hx; [reflexivity|].
+  inversion Hw; subst. apply andb_true_iff in Hx. destruct Hx as [Hx Hr].
+  rewrite (exact_cast_ok x) by assumption. cbn. apply IH; assumption.
+Qed.
+
+Lemma upd_wf (P : N -> Prop) d i x : Forall P d -> P x -> Forall P (upd d i x).
+Proof.
+  revert i. induction d as [|y r IH]; intros i Hd Hx; cbn [upd]; [constructor|].
+  inversion Hd; subst. destruct i; constructor; auto.
+Qed.
+
+Lemma scatter_wf (P : N -> Prop) es : forall d, Forall P d -> Forall (fun e => P (snd e)) es -> Forall P (scatter d es).
+Proof.
+  unfold scatter. induction es as [|e r IH]; intros d Hd He; cbn [fold_left]; [exact Hd|].
+  inversion He; subst. apply IH; [apply upd_wf; assumption|assumption].
+Qed.
+
+Lemma combine_snd_wf {A} (P : N -> Prop) (a : list A) vs :
+  Forall P vs -> Forall (fun e => P (snd e)) (combine a vs).
+Proof.
+  revert vs. induction a as [|x r IH]; intros vs Hv; cbn [combine]; [constructor|].
+  destruct vs as [|v t]; [constructor|]. inversion Hv; subst. constructor; [assumption|apply IH; assumption].
+Qed.
+
+Lemma sparse_dense_wf d p vs : Forall f32_wf vs -> Forall f32_wf (sparse_dense d p vs).
+Proof.
+  intros Hv. unfold sparse_dense. apply scatter_wf.
+  - apply Forall_forall. intros x Hx. apply repeat_spec in Hx. subst x. unfold f32_wf. reflexivity.
+  - apply combine_snd_wf. exact Hv.
+Qed.
+
+Lemma id_path_never_lossy delta f v : tval_wf v -> id_path_lossy_with true delta f v = false.
+Proof.
+  intros Hw. unfold id_path_lossy_with. destruct v as [s|d|dim pos vals|p|ps]; cbn [dense_of]; try reflexivity.
+  - destruct (delta && looks_like_id_list_with true d f) eqn:E; [|reflexivity].
+    apply andb_true_iff in E. destruct E as [_ E]. cbn [andb].
+    rewrite (forallb_cast d Hw (looks_exact d f E)). reflexivity.
+  - destruct (delta && looks_like_id_list_with true (sparse_dense dim pos vals) f) eqn:E; [|reflexivity].
+    apply andb_true_iff in E. destruct E as [_ E]. cbn [andb].
+    rewrite (forallb_cast _ (sparse_dense_wf dim pos vals Hw) (looks_exact _ f E)). reflexivity.
+Qed.
+
+(* per-run: the source carries the guard *)
+Lemma gen_guard_on : gen_id_exact_guard = true.
+Proof. reflexivity. Qed.
+
+Lemma quant_exact_all delta f v :
+  tval_wf v -> is_bytes_scalar v = false -> q_equal v (cunmap (cmap delta f v)) = true.
+Proof.
+  intros Hw Hb. apply quant_exact. unfold quant_known. rewrite gen_guard_on.
+  unfold quant_known_with. rewrite Hb, (id_path_never_lossy delta f v Hw). reflexivity.
 Qed.
 
 (* the unrestricted statement is false: the two known classes *)
@@ -349,8 +537,10 @@ Lemma quant_refuted_bytes :
   exists delta f v, is_bytes_scalar v = true /\ q_equal v (cunmap (cmap delta f v)) = false.
 Proof. exists false, [98], (TScalar (SBytes [1; 2; 3])). split; vm_compute; reflexivity. Qed.
 
+(* the earlier heuristic (a field named ids / *_ids takes the id path whatever it holds) *)
 Lemma quant_refuted_ids :
-  exists delta f v, id_path_lossy delta f v = true /\ q_equal v (cunmap (cmap delta f v)) = false.
+  exists delta f v, id_path_lossy_with false delta f v = true
+                    /\ q_equal v (cunmap (cmap_with false delta f v)) = false.
 Proof.
   (* field "ids" = [5.0; 3.0; 2.5; -1.0] *)
   exists true, [105; 100; 115], (TVec [1084227584; 1077936128; 1075838976; 3212836864]).
